@@ -96,6 +96,10 @@ func deadlineArmRule(c *Ctx, rule string, S *ssa.Function, cio *connIO, wantNs f
 		o.Violate("timeout constant %d is not positive", A.Ns)
 		return
 	}
+	if blockOnCycle(A.Call.Block()) {
+		o.Violate("the deadline is re-armed inside a loop: it becomes an idle timeout that a peer can extend indefinitely instead of an absolute handshake deadline")
+		return
+	}
 	if wantNs > 0 && float64(A.Ns) != wantNs {
 		o.Violate("timeout constant is %d ns, expected %.0f ns", A.Ns, wantNs)
 		return
